@@ -47,7 +47,7 @@ HARNESSES = [
       thorough=[(sh, 0) for sh in ('0', '01', '00', '012', '001', '011', '0012', '0122', '0112', '0123', 'g012', 'g001', 'g0012')],
       float_model='R', cover=['a bundle of overlapping slices', 'an isolated slice'],
       doc='constructed post-slicing state: every hit gets exactly one group id which is the slice id of some hit'),
-    H('H-layer', h_layer, quick=[('asc', 0, 100), ('desc', 1, 20), ('desc-gap', 0, 20), ('asc', 2, 100)], thorough=[(o, x, lb) for o in ('asc', 'desc', 'mixed') for x in (0, 1) for lb in (20, 50, 100)],
+    H('H-layer', h_layer, quick=[('asc', 0, 100), ('desc', 1, 20), ('desc-gap', 0, 20), ('asc', 2, 100)], thorough=[(o, x, lb) for o in ('asc', 'desc', 'mixed') for x in (0, 1) for lb in (20, 50, 100)] + [('asc', 2, 100), ('desc', 2, 20), ('desc-gap', 0, 20)],
       float_model='R', cover=['group split in 2', 'group split in 3', 'group not split', 'second group with an id of 100 or more', 'both groups split', 'a 3-component group re-merged to 2'], scripted=True,
       doc='thirty-hit group through the mixture model: k sub-components give exactly k layers, no layer spans two groups'),
     H('H-crop', h_crop, quick=[(1, 0, 0), (2, 0, 0), (3, 0, 0)], thorough=[(n, 0, 0) for n in (1, 2, 3, 4)], float_model='R',
